@@ -96,7 +96,7 @@ func ruleRestore(c *Ctx, r *Report, pkg, typ, readM, lookM string) {
 
 // C17 — SEI messages survive write/parse round trips (structural part).
 func checkC17(c *Ctx, r *Report) {
-	r.Explanation = "T-PAIR: every function that compares an hevc.NaluType with NALU_SEI_PREFIX also compares it with NALU_SEI_SUFFIX (both carry SEI messages); S-BITS: for a type with NrBits() beside WriteToSliceWriter (ClockTSAvc of pic_timing) the constant number of bits NrBits counts equals the constant widths the writer writes under every assignment of the bool flags; W-BITS: for the typed SEI messages with a serialiser (time code 136, mastering display 137, content light level 144) the decoder is executed on a symbolic payload under every configuration of its flags/counts, " +
+	r.Explanation = "DEP: ITUData.IsCEA608 compares all four identification fields (country, provider, identifier, type code) with constants, so other registered user data is passed through; T-PAIR: every function that compares an hevc.NaluType with NALU_SEI_PREFIX also compares it with NALU_SEI_SUFFIX (both carry SEI messages); S-BITS: for a type with NrBits() beside WriteToSliceWriter (ClockTSAvc of pic_timing) the constant number of bits NrBits counts equals the constant widths the writer writes under every assignment of the bool flags; W-BITS: for the typed SEI messages with a serialiser (time code 136, mastering display 137, content light level 144) the decoder is executed on a symbolic payload under every configuration of its flags/counts, " +
 		"the message's Payload() is executed on the decoded value and compared bit by bit with what was read (plus rbsp trailing bits), and 8*Size() equals the number of bits Payload() writes; " +
 		"(O-RESTORE) the look-ahead EBSPReader.MoreRbspData restores every reader field that Read modifies (bit buffer, position AND the emulation-prevention zero counter); " +
 		"(R3-RET) no Decode*/Parse* function returns its own pointer parameter as the decoded message (ParseSEINalu passes the address of its loop variable); (R3) the Decode*/Parse* functions of sei, avc and hevc store only into memory they allocated (not through pointer parameters: a decoder that fills a caller-supplied structure makes successive messages alias each other); (O-EPB) the emulation-prevention writer inserts 0x03 before every byte 0..3 that follows two zero bytes; (O-EPBR) in EBSPReader.Read the zero counter is reset on the path that drops an emulation prevention byte, before it can be incremented again; (O-MORE) every cycle of the message loop of ExtractSEIData passes the MoreRbspData call (no message is started on the trailing bits); (O-FFRUN) the writer of the 0xFF-run coded type/size keeps emitting 0xFF while the remainder is >= 255; (O-SEIW) WriteSEIMessages writes, per message, Type(), Size() and then exactly the bytes of Payload(); pass-through messages return their stored payload. " +
@@ -111,6 +111,7 @@ func checkC17(c *Ctx, r *Report) {
 	ruleEPB(c, r)
 	ruleEPBReader(c, r)
 	ruleSEIMoreData(c, r)
+	ruleCEA608Identification(c, r)
 	if n := ruleSEIPrefixSuffix(c, r); n < 3 {
 		r.Undecided("T-PAIR", "scope", "", fmt.Sprintf("only %d functions that test for an HEVC SEI NAL unit type found", n))
 	}
